@@ -712,3 +712,16 @@ ADD7 = {
 for _pid, _d in ADD7.items():
     for _k, _v in _d.items():
         PROPS[_pid][_k] = (PROPS[_pid].get(_k, "") + " " + _v).strip()
+
+# Round-7b strengthening.
+ADD8 = {
+    "C01": dict(rule="Suite c01k: clients whose malformed request was refused keep their sockets open: the connection tasks end and the slots come back."),
+    "C03": dict(rule="(3) a bare LF as the line end in front of / behind Content-Length, Transfer-Encoding and Expect fields."),
+    "C07": dict(rule="c04e shape 4: an event stream whose source fails in mid-body (an event the encoder cannot take): the wire ends after the last complete chunk, without terminator and without a second status line."),
+    "C09": dict(rule="Behaviour R<M> (Request::recv_body(M)); cache = 3: bodies within the limit while the disk fails at write or only at close are never accepted (sizeCheck clause accepted-despite-disk-failure)."),
+    "C15": dict(rule="c15r: Cookie fields of 49..180 pairs with a late overriding duplicate or a late segment without '='. c15s: paths ending in '/'."),
+    "C20": dict(rule="Suite c01l (requests that cannot be read, while the application's logger has stopped: the error response must still arrive)."),
+}
+for _pid, _d in ADD8.items():
+    for _k, _v in _d.items():
+        PROPS[_pid][_k] = (PROPS[_pid].get(_k, "") + " " + _v).strip()
